@@ -910,6 +910,8 @@ func (h *vfE2H) exec(line string) {
 		h.doScanLoop()
 	case "pausedrestart": // private NSQD, restart with a topic persisted as paused
 		h.doPausedRestart()
+	case "busypause": // private NSQD, topic paused while its pump is mid-backlog (seeded C03-m7)
+		h.doBusyPause()
 	}
 }
 
